@@ -437,10 +437,16 @@ def parse_ref_body(stmts):
         if e is not None:
             p = e["p"]
             turbo = ""
+            turbo_text = ""
             if is_p(p[-1], ">"):
                 turbo = "T"
+                # C14 (additive): text of the turbofish type, `path :: < T >` -> "T"
+                for q in range(len(p)):
+                    if is_p(p[q], "<"):
+                        turbo_text = render(p[q + 1:-1])
+                        break
             segs = [x.s for x in strip_turbofish(p) if x.k == "id"]
-            pre.append(("POneshot", e["tx"].s, e["rx"].s, "::".join(segs), turbo))
+            pre.append(("POneshot", e["tx"].s, e["rx"].s, "::".join(segs), turbo, turbo_text))
             i += 1
             continue
         e = match(st, "let $x:ident = self . $g:ident ( ) ;")
